@@ -28,7 +28,8 @@ RULE = (
 )
 ASSUMPTIONS = [
     "oracle O (self-tested against Gauss-Hermite quadrature and against oracle E) is the truth",
-    "accuracy is asserted relative to sqrt(S_mm S_nn): 1e-11*scale + 1e-15",
+    "accuracy is asserted relative to sqrt(S_mm S_nn) of the functions contracted with absolute "
+    "coefficients (no cancellation between primitives): 1e-11*scale + 1e-15",
     "cases with a primitive pair within 1e-6 (log units) of the 1e-15 screening threshold are "
     "skipped and counted as inconclusive",
     "kernel identities: randomized polynomial identity testing (Schwartz-Zippel), not a proof",
@@ -107,6 +108,12 @@ def signed_perm(plain, conv_new):
     return np.array(perm), np.array(signs)
 
 
+def abs_contractions(plain):
+    out = dict(plain)
+    out["shells"] = [dict(sh, coeffs=np.abs(np.asarray(sh["coeffs"], dtype=float))) for sh in plain["shells"]]
+    return out
+
+
 def check_pair(spec, counters=None):
     from iodata.overlap import compute_overlap
 
@@ -118,8 +125,10 @@ def check_pair(spec, counters=None):
     if info["threshold_margin"] < 1e-6:
         return None  # too close to the screening threshold: inconclusive by construction
     exact = O.overlap(p0, p1, screen=False)
-    d0 = np.sqrt(np.abs(np.diag(O.overlap(p0))))
-    d1 = d0 if p1 is None else np.sqrt(np.abs(np.diag(O.overlap(p1))))
+    # scale of S_mn: sqrt(S_mm S_nn) of the functions contracted with |coefficients|, i.e. without
+    # cancellation between primitives (the forward error of a cancelling sum is eps * sum |terms|)
+    d0 = np.sqrt(np.abs(np.diag(O.overlap(abs_contractions(p0)))))
+    d1 = d0 if p1 is None else np.sqrt(np.abs(np.diag(O.overlap(abs_contractions(p1)))))
     scale = np.outer(d0, d1)
     tol = 1e-11 * scale + 1e-15
     problems = []
@@ -379,7 +388,7 @@ def shards(tier, seed):
             (
                 f"pairs{i}",
                 "shard_pairs",
-                {"max_examples": 460 if big else 24, "max_nbasis": 60 if big else 40},
+                {"max_examples": 300 if big else 24, "max_nbasis": 60 if big else 40},
             )
         )
     return out
